@@ -112,6 +112,8 @@ impl EventGen for LoopElement {
                 }
                 iteration += 1;
                 loop_var_value += loop_step;
+                #[cfg(feature = "verif")]
+                crate::verif::iteration("loop", iteration, context.config.loop_limit);
                 if iteration > context.config.loop_limit {
                     return Err(SvgdxError::LoopLimitError(
                         iteration,
@@ -181,6 +183,8 @@ impl EventGen for ForElement {
                     bbox.extend(bb);
                 }
                 idx += 1;
+                #[cfg(feature = "verif")]
+                crate::verif::iteration("for", idx, context.config.loop_limit);
                 if idx > context.config.loop_limit {
                     return Err(SvgdxError::LoopLimitError(idx, context.config.loop_limit));
                 }
